@@ -699,6 +699,24 @@ impl Run {
         0
     }
 
+    /// Summary of one sub-check (used by child processes to hand their numbers to the parent).
+    pub fn sub_summary(&self, name: &str) -> Value {
+        match self.subs.iter().find(|s| s.name == name) {
+            Some(s) => json!({
+                "cases": s.stats.cases,
+                "distinct_nontrivial": if s.kind == "proptest" { s.stats.keys.len() as u64 } else { s.stats.nontrivial },
+                "samples": s.stats.samples,
+                "wall_s": s.wall_s,
+            }),
+            None => Value::Null,
+        }
+    }
+
+    /// Counts a violation whose VIOLATION line and replay file were produced by a child process.
+    pub fn note_external_violation(&mut self, check: &str, detail: &str) {
+        self.violations.push((Violation { check: check.to_string(), case: Value::Null, detail: detail.to_string() }, PathBuf::from("(child)")));
+    }
+
     pub fn violation_count(&self) -> usize {
         self.violations.len()
     }
